@@ -5,11 +5,13 @@ No source hooks: the per-token view comes from replacing the public attribute
 `parser.lexer` with a subclass whose scan() counts the tokens it hands out, which also
 gives deterministic hang detection (a BaseException after 4*len+16 yields).
 """
+import contextlib
 import io
 import os
 import signal
 import sys
 import threading
+import zlib
 
 REPO = os.environ.get("VERIF_REPO", "/repo")
 if REPO not in sys.path:
@@ -176,9 +178,16 @@ def run_parse(p, data, rt=False):
         # wall-clock watchdog (normal parses of these inputs take well under a millisecond)
         old = signal.signal(signal.SIGALRM, _alarm)
         signal.setitimer(signal.ITIMER_REAL, WALL_LIMIT if _slow_events[0] < 3 else 0.3)
+    # configuration: every fourth input is parsed with the parser's debug flag on (what it prints is discarded);
+    # nothing that is judged may depend on it
+    p.debug = zlib.crc32(data if isinstance(data, bytes) else data.encode("utf-8")) % 4 == 0
     try:
         try:
-            r = p.parse(data)
+            if p.debug:
+                with contextlib.redirect_stdout(io.StringIO()):
+                    r = p.parse(data)
+            else:
+                r = p.parse(data)
         finally:
             if timer:
                 signal.setitimer(signal.ITIMER_REAL, 0)
